@@ -124,13 +124,13 @@ func fieldRefOf(v ssa.Value) (FieldRef, bool) {
 		if st == nil {
 			return FieldRef{}, false
 		}
-		return FieldRef{Struct: namedOf(x.X.Type()), Name: st.Field(x.Field).Name(), Base: x.X}, true
+		return FieldRef{Struct: namedOf(x.X.Type()), Name: canonFieldName(namedOf(x.X.Type()), st.Field(x.Field).Name()), Base: x.X}, true
 	case *ssa.Field:
 		st := structOf(x.X.Type())
 		if st == nil {
 			return FieldRef{}, false
 		}
-		return FieldRef{Struct: namedOf(x.X.Type()), Name: st.Field(x.Field).Name(), Base: x.X}, true
+		return FieldRef{Struct: namedOf(x.X.Type()), Name: canonFieldName(namedOf(x.X.Type()), st.Field(x.Field).Name()), Base: x.X}, true
 	}
 	return FieldRef{}, false
 }
@@ -152,7 +152,11 @@ func QualType(n *types.Named) string {
 	if n.Obj().Pkg() == nil {
 		return n.Obj().Name()
 	}
-	return n.Obj().Pkg().Name() + "." + n.Obj().Name()
+	q := n.Obj().Pkg().Name() + "." + n.Obj().Name()
+	if c, ok := typeAlias[q]; ok {
+		return c
+	}
+	return q
 }
 
 func (f FieldRef) Key() string { return QualType(f.Struct) + "." + f.Name }
